@@ -533,7 +533,12 @@ func BuildColumnName(expr sqlparser.Expr) (string, string, error) {
 	if !ok {
 		return "", "", INVALID_TYPE.Extend(fmt.Sprintf("failed to build `COLUMN` name. expected ColName but found %T", expr))
 	}
-	return columnName.Qualifier.Name.String(), columnName.Name.String(), nil
+	// a.b.c reaches the parser as schema a, table b, column c: all of it is the path to the value
+	qualifier := columnName.Qualifier.Name.String()
+	if schema := columnName.Qualifier.Qualifier.String(); len(schema) > 0 {
+		qualifier = fmt.Sprintf("%s.%s", schema, qualifier)
+	}
+	return qualifier, columnName.Name.String(), nil
 }
 
 func BuildFromAliasedTable(query *Query, as string, expr sqlparser.SimpleTableExpr) error {
